@@ -674,6 +674,26 @@ fn shrink_case(v: &SV, o: &O, fails: &dyn Fn(&SV, &O) -> bool) -> (SV, O) {
     (cur, co)
 }
 
+/// a mapping key that is itself a one-entry mapping with a null-like key — `? null: z`, `? "": z`, `? "Null": z` (quoted or
+/// not): also the one-entry mappings written for enum variants with data / one-field structs whose name is null-like
+fn has_null_key_map_key(v: &SV) -> bool {
+    fn nullish_name(n: &str) -> bool { n.is_empty() || n == "~" || n.eq_ignore_ascii_case("null") }
+    fn nullish(k: &SV) -> bool { match k {
+        SV::Unit | SV::None => true,
+        SV::Some(v) | SV::Newtype(v) | SV::FlowMap(v) | SV::FlowSeq(v) | SV::SpaceAfter(v) => nullish(v),
+        SV::Str(s) | SV::LitStr(s) | SV::FoldStr(s) => nullish_name(s),
+        SV::UnitVariant(_, n) => nullish_name(n),
+        _ => false } }
+    fn one_null_entry(k: &SV) -> bool { match k {
+        SV::Some(v) | SV::Newtype(v) | SV::FlowMap(v) | SV::FlowSeq(v) | SV::SpaceAfter(v) => one_null_entry(v),
+        SV::Commented(v, _) => one_null_entry(v),
+        SV::Map(_, e) => e.len() == 1 && nullish(&e[0].0),
+        SV::Struct(e) => e.len() == 1 && nullish_name(e[0].0),
+        SV::NewtypeVariant(n, _) | SV::TupleVariant(n, _) | SV::StructVariant(n, _) => nullish_name(n),
+        _ => false } }
+    v.any(&|x| matches!(x, SV::Map(_, es) if es.iter().any(|(k, _)| one_null_entry(k))))
+}
+
 const BREAKS: [char; 4] = ['\r', '\u{85}', '\u{2028}', '\u{2029}'];
 
 /// Stable ROOT-CAUSE class id of a shrunk failing case.  The case has been minimised (value and option vector:
@@ -694,7 +714,8 @@ fn classify(prop: &str, v: &SV, o: &O) -> String {
     // options first: every option still different from the default is necessary for the failure
     if o.yaml12 {
         let y11 = |s: &str| matches!(s.to_ascii_lowercase().as_str(), "y" | "yes" | "on" | "n" | "no" | "off");
-        if has(&|x| matches!(x, SV::Str(s) if y11(s)) || matches!(x, SV::UnitVariant(_, n) if y11(n))) { return id("yaml12-plain-yaml11-bool"); }
+        if has(&|x| matches!(x, SV::Str(s) if y11(s)) || matches!(x, SV::UnitVariant(_, n) | SV::NewtypeVariant(n, _) | SV::TupleVariant(n, _) | SV::StructVariant(n, _) if y11(n))
+                    || matches!(x, SV::Struct(fs) | SV::StructVariant(_, fs) if fs.iter().any(|(n, _)| y11(n)))) { return id("yaml12-plain-yaml11-bool"); }
         return id("yaml12-no-document-start");
     }
     if !o.braces && has(&|x| matches!(x, SV::Seq(e) | SV::Tuple(e) | SV::TupleStruct(e) | SV::TupleVariant(_, e) if e.is_empty())
@@ -736,22 +757,15 @@ fn classify(prop: &str, v: &SV, o: &O) -> String {
     // a key that is a one-entry mapping with a null-like key (`? null: z`): the deserializer takes it for an "explicit empty key
     // captured as a one-entry mapping { null: V }" (de.rs, MapAccess::next_key_seed): key = empty mapping, value = V, the real value is
     // dropped — a rule of the reader (also for the flow form `? {null: z}`), not of the emitter
-    if has(&|x| matches!(x, SV::Map(_, es) if es.iter().any(|(k, _)| {
-        fn nullish(k: &SV) -> bool { match k {
-            SV::Unit | SV::None => true,
-            SV::Some(v) | SV::Newtype(v) | SV::FlowMap(v) | SV::FlowSeq(v) | SV::SpaceAfter(v) => nullish(v),
-            SV::Str(s) | SV::LitStr(s) | SV::FoldStr(s) => s.is_empty() || s == "~" || s.eq_ignore_ascii_case("null"),
-            _ => false } }
-        fn one_null_entry(k: &SV) -> bool { match k {
-            SV::Some(v) | SV::Newtype(v) | SV::FlowMap(v) | SV::FlowSeq(v) | SV::SpaceAfter(v) => one_null_entry(v),
-            SV::Commented(v, _) => one_null_entry(v),
-            SV::Map(_, e) => e.len() == 1 && nullish(&e[0].0),
-            _ => false } }
-        one_null_entry(k) }))) {
-        return id("null-key-map-as-key");
-    }
+    if has_null_key_map_key(v) { return id("null-key-map-as-key"); }
     if has(&|x| matches!(x, SV::Map(_, es) if es.iter().any(|(k, _)| k.any(&|y| matches!(y, SV::Seq(_) | SV::Tuple(_) | SV::TupleStruct(_) | SV::Map(..) | SV::Struct(_) | SV::NewtypeVariant(..) | SV::TupleVariant(..) | SV::StructVariant(..) | SV::Commented(..)))))) {
         return id("complex-key");
+    }
+    // the name of a variant with data that reads as a YAML 1.1 boolean, written plain as the key of `Variant: payload`
+    {
+        let y11 = |s: &str| matches!(s.to_ascii_lowercase().as_str(), "y" | "yes" | "on" | "n" | "no" | "off");
+        if has(&|x| matches!(x, SV::NewtypeVariant(n, _) | SV::TupleVariant(n, _) | SV::StructVariant(n, _) if y11(n))) { return id("variant-key-yaml11-bool"); }
+        if o.tagged && has(&|x| matches!(x, SV::UnitVariant(_, n) if y11(n))) { return id("tagged-variant-yaml11-bool"); }
     }
     if has(&|x| matches!(x, SV::TupleVariant(_, e) if e.is_empty())) { return id("tuple-variant-empty"); }
     if has(&|x| matches!(x, SV::StructVariant(_, e) if e.is_empty())) { return id("struct-variant-empty"); }
@@ -1025,7 +1039,11 @@ impl Ctx {
             // the small exhaustive / sibling families — compared on ALL their texts, broken or not — do not reach)
             let random_broken = family.starts_with("random") && v.size() > 6 && check_roundtrip(v, o).is_some();
             if random_broken { self.sink.count("read.skipped_random_large_broken"); }
-            if !empty_key && !open_flow && !random_broken && self.texts.insert(text.clone()) {
+            // a key that is a one-entry mapping with a null-like key: the external deserializer takes it for an "explicit empty
+            // key" (known reader rule `null-key-map-as-key`), the reference reader does not
+            let null_key_map = has_null_key_map_key(v);
+            if null_key_map { self.sink.count("read.skipped_null_key_map_key"); }
+            if !empty_key && !open_flow && !random_broken && !null_key_map && self.texts.insert(text.clone()) {
                 // a null document is not counted by from_multiple (0 documents); two or more = not one document
                 let single = matches!(doc_count(text), Ok(0) | Ok(1));
                 let imp = match parse_any(text) { Ok(val) if single => format!("some {}", P::from_val(&val).tokens()), _ => "none".to_string() };
@@ -1117,8 +1135,64 @@ fn witnesses() -> Vec<(SV, O)> {
         (SV::Struct(vec![("k", SV::TupleStruct(vec![SV::LitStr("a\nb".into()), SV::Int(1)]))]), d),                    // block-scalar-after-tuple-dash
         (SV::Seq(vec![SV::Struct(vec![("k", SV::SpaceAfter(Box::new(SV::UnitVariant("E", LONG_UNIT))))])]), d),        // unit-variant-auto-folded
         // transparent cases
+        (SV::FlowSeq(Box::new(SV::Seq(vec![SV::UnitVariant("Axis", "X"), SV::UnitVariant("Axis", "Y")]))), O { tagged: true, ..d }), // tagged-variant-yaml11-bool (seed C20/3)
+        (SV::Struct(vec![("k", SV::UnitVariant("Axis", "Off")), ("m", SV::NewtypeVariant("Y", Box::new(SV::Int(1))))]), O { tagged: true, ..d }), // + variant-key-yaml11-bool
         (SV::Struct(vec![("ports", SV::FlowSeq(Box::new(SV::Seq(vec![SV::Int(8080), SV::Int(8081)])))), ("note", SV::LitStr("line 1\nline 2".into())), ("s", SV::SpaceAfter(Box::new(s("x")))), ("z", SV::Int(1))]), d),
     ]
+}
+
+/// names of enum variants and struct fields that LOOK LIKE something else: YAML 1.1 / 1.2 booleans and nulls, numbers, the
+/// merge key, document markers, indicators, `key: value` texts, names with a leading / trailing blank, the empty name
+const LOOKALIKE_NAMES: [&str; 32] = ["Y", "N", "Yes", "No", "On", "Off", "y", "n", "yes", "on", "off", "True", "False", "true", "Null", "null", "~",
+    "1", "1.5", "0x1F", "<<", "---", "- a", "a: b", " lead", "trail ", "", "a #b", "[x]", "Ok", "a,b", "a:b"];
+
+/// a look-alike name in every role (unit / newtype / tuple / struct variant, struct field) and every position (root, sequence
+/// item, mapping value, mapping key, payload of another variant, inside a flow collection)
+fn name_shapes(n: &'static str, wrappers: bool) -> Vec<SV> {
+    let i = |k: i64| SV::Int(k);
+    let uv = || SV::UnitVariant("Axis", n);
+    let roles: Vec<SV> = vec![
+        uv(),
+        SV::NewtypeVariant(n, Box::new(i(1))),
+        SV::NewtypeVariant(n, Box::new(SV::Seq(vec![i(1)]))),
+        SV::TupleVariant(n, vec![i(1), i(2)]),
+        SV::StructVariant(n, vec![("a", i(1))]),
+        SV::Struct(vec![(n, i(1)), ("zz", i(2))]),
+        SV::StructVariant("Sv", vec![(n, i(1))]),
+        SV::Struct(vec![("f", uv()), (n, uv())]),
+    ];
+    let mut out: Vec<SV> = Vec::new();
+    for r in &roles {
+        let b = |x: &SV| Box::new(x.clone());
+        let positions: Vec<SV> = vec![
+            r.clone(),                                                        // root
+            SV::Seq(vec![r.clone(), SV::UnitVariant("Axis", "X")]),           // sequence item
+            SV::Struct(vec![("k", r.clone()), ("m", i(0))]),                  // mapping value
+            SV::Map(true, vec![(r.clone(), i(1))]),                           // mapping key
+            SV::Map(false, vec![(SV::Str("k".into()), SV::Some(b(r)))]),      // Option in a map of unknown length
+            SV::NewtypeVariant("Nv", b(r)),                                   // payload of another variant
+            SV::TupleVariant("Tv", vec![r.clone(), i(3)]),
+            SV::Seq(vec![SV::Seq(vec![r.clone()])]),
+        ];
+        out.extend(positions.iter().cloned());
+        if wrappers {
+            out.push(SV::FlowSeq(b(&SV::Seq(vec![r.clone(), i(1)]))));
+            out.push(SV::FlowMap(b(&SV::Struct(vec![("k", r.clone())]))));
+            out.push(SV::Struct(vec![("k", SV::Commented(b(r), "note".into())), ("m", SV::SpaceAfter(b(r)))]));
+            out.push(SV::Seq(vec![SV::FlowSeq(b(&SV::Seq(vec![r.clone()]))), r.clone()]));
+        }
+    }
+    out
+}
+
+/// option vectors for the name family: every combination of tagged_enums / quote_all / yaml_12, plus layout options
+fn name_opts() -> Vec<O> {
+    let d = O::default();
+    let mut v = Vec::new();
+    for t in [false, true] { for q in [false, true] { for y in [false, true] { v.push(O { tagged: t, quote_all: q, yaml12: y, ..d }); } } }
+    v.push(O { tagged: true, indent: 4, compact: true, ..d });
+    v.push(O { tagged: true, prefer_block: false, fold_wrap: 5, ..d });
+    v
 }
 
 /// C13 regression witnesses: one per repaired defect class (each fails again under its old id when its fix is reverted)
@@ -1140,6 +1214,9 @@ fn witnesses13() -> Vec<(SV, O)> {
         (SV::Struct(vec![("k", SV::Seq(vec![SV::StructVariant("Sv", vec![("a", SV::Seq(vec![i(1)]))])]))]), d),         // struct-variant-position
         (SV::TupleStruct(vec![SV::TupleStruct(vec![i(1)])]), d),                                                        // tuple-struct-position
         (SV::Seq(vec![SV::Struct(vec![("k", SV::UnitVariant("E", LONG_UNIT))])]), d),                                   // unit-variant-auto-folded
+        (SV::NewtypeVariant("Y", Box::new(i(1))), d),                                                                   // variant-key-yaml11-bool
+        (SV::Seq(vec![SV::StructVariant("No", vec![("a", i(1))]), SV::TupleVariant("on", vec![i(1), i(2)])]), d),
+        (SV::Seq(vec![SV::UnitVariant("Axis", "X"), SV::UnitVariant("Axis", "Y")]), O { tagged: true, ..d }),            // tagged-variant-yaml11-bool (seed C20/3)
     ]
 }
 
@@ -1151,6 +1228,10 @@ fn generate(a: &Args, wrappers: bool) -> i32 {
     let grid = O::grid();
     if wrappers { for (v, o) in witnesses() { cx.case("witness", &v, &o); } }
     else { for (v, o) in witnesses13() { cx.case("witness", &v, &o); } }
+    // look-alike names of variants / fields in every role and position x tagged_enums / quote_all / yaml_12
+    for n in LOOKALIKE_NAMES.iter() {
+        for v in name_shapes(n, wrappers) { for o in name_opts() { cx.case("names", &v, &o); } }
+    }
     // exhaustive small trees
     let maxn = if a.thorough { 4 } else { 3 };
     let mut memo: Vec<Vec<SV>> = Vec::new();
@@ -1194,7 +1275,7 @@ fn generate(a: &Args, wrappers: bool) -> i32 {
     cx.sink.finish(&a.out, fname, serde_json::json!({
         "distinct_nontrivial": nt,
         "oracle_failures_by_id": cx.per_id,
-        "rule": format!("{prop}: value trees of the Serde data model ({}) serialized by a run-time `Serialize` impl that issues the derive calls: exhaustive over all trees with <= {maxn} nodes (16 leaf kinds incl. empty containers, 9{} unary and 7 binary constructors) x the 16-vector option grid (indent 1-4, compact_list_indent, empty_as_braces, quote_all, yaml_12, tagged_enums, prefer_block_scalars), a sibling-interaction family (19 parent shapes x representative children squared), random trees up to depth 5 under random option vectors (indent 1-10, fold parameters); every emitted text is compared byte for byte with the Lean emitter model (`emit ser`), every distinct text is read by the Lean reference reader and by the real parser (`emit read`), and the implementation-only oracle checks {}. Non-trivial = distinct value tree with more than one node.",
+        "rule": format!("{prop}: value trees of the Serde data model ({}) serialized by a run-time `Serialize` impl that issues the derive calls: exhaustive over all trees with <= {maxn} nodes (16 leaf kinds incl. empty containers, 9{} unary and 7 binary constructors) x the 16-vector option grid (indent 1-4, compact_list_indent, empty_as_braces, quote_all, yaml_12, tagged_enums, prefer_block_scalars), a name family (32 look-alike names of enum variants / struct fields — YAML 1.1 booleans, nulls, numbers, `<<`, `---`, indicators, flow and key indicators inside the name, blanks — in 8 roles x 8 (+4 flow / comment) positions x every combination of tagged_enums / quote_all / yaml_12), a sibling-interaction family (19 parent shapes x representative children squared), random trees up to depth 5 under random option vectors (indent 1-10, fold parameters); every emitted text is compared byte for byte with the Lean emitter model (`emit ser`), every distinct text is read by the Lean reference reader and by the real parser (`emit read`), and the implementation-only oracle checks {}. Non-trivial = distinct value tree with more than one node.",
                         if wrappers { "decorated with FlowSeq/FlowMap/Commented/SpaceAfter/LitStr/FoldStr at every position, comments and block strings with #, line breaks (LF, CR, NEL, LS, PS), YAML syntax, leading blanks, trailing newlines, long words" } else { "no presentation wrappers" },
                         if wrappers { "+4" } else { "" },
                         if wrappers { "that the wrapped value under the option vector reads back (untyped and typed, exactly one document) as the same data as the bare value under default options, folded strings modulo trailing line breaks" } else { "exactly one document, untyped tree = erase(value), typed deserialization through a Ty derived from the value = value" }),
